@@ -143,6 +143,39 @@ Section Flat.
   Hypothesis Hsid : sup Hd Hd = Some sid.
   Hypothesis Hsid_id : all_identity sid.
 
+  (* the blocks of the header are consumed one by one; what remains is the unlock call *)
+  Section RecBlocks.
+    Variable sub : list (term * list (term * subs)).
+    Variable its : items.
+    Hypothesis Hself : im_get term_eqb (subsets_of sub Hd) Hd = None.
+
+    Lemma rec_blocks sp R sp' fuel :
+      rec sub its fuel Hd [] sp (groups_upto n) = (R, sp') -> R <> [] ->
+      forall m k, k + m = n ->
+      rec sub its (m + fuel) Hd (impls_from k) sp (groups_upto k) = (R, sp').
+    Proof.
+      intros Hend HR. induction m as [|m IH]; intros k Hkm.
+      - assert (k = n) by lia. subst k. unfold impls_from. rewrite Nat.sub_diag. cbn [seq map plus]. exact Hend.
+      - assert (Hk : k < n) by lia.
+        unfold impls_from. replace (n - k) with (S (n - S k)) by lia. cbn [seq map].
+        fold (impls_from (S k)).
+        assert (IHk := IH (S k) ltac:(lia)).
+        cbn [plus rec fst snd]. destruct k as [|k'].
+        + cbn [groups_upto fold_left im_has im_get].
+          assert (E1 : [] ++ [(Hd, (abg_new (ib 0), [0]))] = groups_upto 1).
+          { cbn [groups_upto app]. unfold abg_new, abg_upto, rows_upto, ib.
+            cbn [ib_bounds ib_unsized fold_left im_update fst snd row_extend im_insert seq map]. reflexivity. }
+          rewrite E1, IHk. destruct R; [congruence|]. reflexivity.
+        + assert (E2 : [(Hd, (abg_upto (S (S k')), seq 0 (S k') ++ [S k']))] = groups_upto (S (S k'))).
+          { cbn [groups_upto]. rewrite <- seq_S. reflexivity. }
+          cbn [groups_upto fold_left fst snd].
+          rewrite Hself. unfold im_has. cbn [im_get]. rewrite ?term_eqb_refl. rewrite Hsid.
+          rewrite (intersection_step sid (S k') Hsid_id ltac:(lia) Hk). cbn [fold_left im_insert].
+          rewrite ?term_eqb_refl. rewrite E2. rewrite IHk. cbn [app fst].
+          destruct R; [congruence|]. reflexivity.
+    Qed.
+  End RecBlocks.
+
   Let sub := [(Hd, @nil (term * subs))].
   Let its := [(Hd, impls_from 0)].
 
@@ -150,32 +183,12 @@ Section Flat.
     k + m = n -> m < fuel ->
     rec sub its fuel Hd (impls_from k) sp (groups_upto k) = ([groups_upto n], sp).
   Proof.
-    induction m as [|m IH]; intros k fuel Hkm Hf.
-    - (* nothing left: unlock, no subsets *)
-      assert (k = n) by lia. subst k. unfold impls_from. rewrite Nat.sub_diag. cbn [seq map].
-      destruct fuel as [|fuel]; [lia|]. cbn [rec]. unfold subsets_of, sub. cbn [im_get].
+    intros m k fuel Hkm Hf. replace fuel with (m + (fuel - m)) by lia.
+    apply rec_blocks; auto.
+    - unfold subsets_of, sub. cbn [im_get]. rewrite term_eqb_refl. reflexivity.
+    - destruct (fuel - m) as [|f] eqn:E; [lia|]. cbn [rec]. unfold subsets_of, sub. cbn [im_get].
       rewrite term_eqb_refl. cbn [fold_left]. reflexivity.
-    - destruct fuel as [|fuel]; [lia|].
-      assert (Hk : k < n) by lia.
-      unfold impls_from. replace (n - k) with (S (n - S k)) by lia. cbn [seq map].
-      fold (impls_from (S k)).
-      assert (IHk := IH (S k) fuel ltac:(lia) ltac:(lia)).
-      cbn [rec fst snd]. destruct k as [|k'].
-      + (* first block: a new family *)
-        cbn [groups_upto fold_left im_has im_get].
-        assert (E1 : [] ++ [(Hd, (abg_new (ib 0), [0]))] = groups_upto 1).
-        { cbn [groups_upto app]. unfold abg_new, abg_upto, rows_upto, ib.
-          cbn [ib_bounds ib_unsized fold_left im_update fst snd row_extend im_insert seq map]. reflexivity. }
-        rewrite E1, IHk. reflexivity.
-      + (* a later block joins the family *)
-        assert (E2 : [(Hd, (abg_upto (S (S k')), seq 0 (S k') ++ [S k']))] = groups_upto (S (S k'))).
-        { cbn [groups_upto]. rewrite <- seq_S. reflexivity. }
-        cbn [groups_upto fold_left fst snd].
-        unfold im_has, subsets_of, sub. cbn [im_get]. rewrite ?term_eqb_refl. cbn [im_get].
-        rewrite ?term_eqb_refl. rewrite Hsid.
-        rewrite (intersection_step sid (S k') Hsid_id ltac:(lia) Hk). cbn [fold_left im_insert].
-        rewrite ?term_eqb_refl. rewrite E2. fold sub. rewrite IHk. cbn [app fst].
-        destruct n; [lia|]. reflexivity.
+    - discriminate.
   Qed.
 
   (* ---- the rows of the final family and the candidate filter ---- *)
@@ -256,4 +269,29 @@ Proof.
   exists (abg_upto B a T p n). split.
   - eapply flat_family_accepted; eauto.
   - eapply payloads_upto; eauto.
+Qed.
+
+(* ---- bucketing of a duplicate-free list, without the duplicate test ---- *)
+Definition bucket_step (st : items * nat) (b : term) : items * nat :=
+  (im_update term_eqb (fst st) (gid_of b) [] (fun m => m ++ [(snd st, find_bounds b)]), S (snd st)).
+
+Lemma bucket_nodup L : NoDup L -> bucket L = fst (fold_left bucket_step L ([], 0)).
+Proof.
+  intro Hnd. unfold bucket.
+  match goal with |- context [fold_left ?F L ([], 0)] => set (F0 := F) end.
+  assert (G : forall suf pre st, L = pre ++ suf -> snd st = List.length pre ->
+              fold_left F0 suf st = fold_left bucket_step suf st).
+  { induction suf as [|b suf IH]; intros pre st HL Hlen; [reflexivity|].
+    cbn [fold_left].
+    assert (Estep : F0 st b = bucket_step st b).
+    { destruct st as [its i]. unfold F0, bucket_step. cbn [fst snd] in *. subst i.
+      assert (Hd : existsb (term_eqb b) (firstn (List.length pre) L) = false).
+      { rewrite HL, firstn_app, Nat.sub_diag, firstn_O, app_nil_r, firstn_all.
+        apply existsb_false_notin. rewrite HL in Hnd. apply NoDup_remove_2 in Hnd.
+        intro Hin. apply Hnd. apply in_or_app. left; exact Hin. }
+      rewrite Hd. reflexivity. }
+    rewrite Estep. apply (IH (pre ++ [b])).
+    - rewrite <- app_assoc. exact HL.
+    - destruct st as [its i]. cbn [snd] in *. unfold bucket_step. cbn [snd]. rewrite app_length. simpl. lia. }
+  rewrite (G L [] ([], 0) eq_refl eq_refl). reflexivity.
 Qed.
